@@ -146,7 +146,7 @@ func c12Scenario(sp c12Spec) *explore.Scenario {
 					if i == 0 {
 						firstDone = true
 					}
-					st.callersEnd++
+					st.endCaller()
 					vsched.Yield("caller.end", st.srvObj())
 				})
 			}
@@ -156,7 +156,7 @@ func c12Scenario(sp c12Spec) *explore.Scenario {
 				vsched.Go("late", func() {
 					vsched.WaitFor("late.start", st.srvObj(), func() bool { return firstDone })
 					st.call(context.Background(), res)
-					st.callersEnd++
+					st.endCaller()
 					vsched.Yield("caller.end", st.srvObj())
 				})
 			}
